@@ -259,6 +259,9 @@ func (reg *Reg) referrerDelete(ctx context.Context, r ref.Ref, m manifest.Manife
 		return nil
 	}
 
+	// lock to avoid internal race conditions between pulling and pushing tag
+	reg.muRefTag.Lock()
+	defer reg.muRefTag.Unlock()
 	// fallback to using tag schema for refers
 	rl, err := reg.referrerListByTag(ctx, rSubject)
 	if err != nil {
